@@ -5,7 +5,7 @@
 ROOT  := $(dir $(abspath $(lastword $(MAKEFILE_LIST))))
 ROOT  := $(ROOT:/=)
 REPO  ?= /repo
-B     := $(ROOT)/build
+B     ?= $(ROOT)/build
 CXX   := g++
 BASE  := -std=c++20 -O2 -DNDEBUG -pthread -I$(ROOT)/mc -I$(B)/gen -I$(REPO)/include -isystem /usr/include/eigen3 -MMD -MP -fno-access-control -fno-tree-slp-vectorize -Wno-deprecated-declarations
 
